@@ -59,14 +59,18 @@ def kinds(tree):
 
 def parse_query(case):
     f = case.split()
+    style = "0"
+    if f[0] == "QV":        # a query whose text is respelled outside its literals (c19seq.go)
+        style, f = f[1], ["Q"] + f[2:]
     tree, p = parse_filter(f, 2)
     ns = int(f[p])
     sort = [tuple(f[p + 1 + 3 * i: p + 4 + 3 * i]) for i in range(ns)]
-    return dict(order=f[1], filter=tree, sort=sort, skip=f[p + 1 + 3 * ns], limit=f[p + 2 + 3 * ns])
+    return dict(order=f[1], filter=tree, sort=sort, skip=f[p + 1 + 3 * ns], limit=f[p + 2 + 3 * ns], style=style)
 
 
 def build_query(q):
-    toks = ["Q", q["order"]] + flat(q["filter"]) + [str(len(q["sort"]))]
+    head = ["Q"] if q.get("style", "0") == "0" else ["QV", q["style"]]
+    toks = head + [q["order"]] + flat(q["filter"]) + [str(len(q["sort"]))]
     for s in q["sort"]:
         toks += list(s)
     return " ".join(toks + [q["skip"], q["limit"]])
@@ -120,15 +124,27 @@ def verdict(i, m):
     fi, fm = fields(i), fields(m)
     if fi["objectz"] == "PANIC" and fi["boltz"] == "PANIC":
         return None          # the shared evaluator fails identically on both stores: not a C19 matter
+    omap = fi.get("objectzmap", fi["objectz"])    # the object store fed through objectz.IterateMap
     if fm["ok"] != "1":
         if fi["objectz"] != fi["boltz"]:
             return ("differs", fi["objectz"], fi["boltz"])
+        if omap != fi["boltz"]:
+            return ("differs", omap, fi["boltz"])
         return None
     if fi["objectz"] != fm["spec"]:
         return ("objectz", fi["objectz"], fm["spec"])
+    if omap != fm["spec"]:
+        return ("objectz", omap, fm["spec"])
     if fi["boltz"] != fm["spec"]:
         return ("bolt", fi["boltz"], fm["spec"])
     return None
+
+
+def via_map(i, m):
+    """the violation is one of the store fed through the library's map iterator only"""
+    fi, fm = fields(i), fields(m)
+    want = fm["spec"] if fm["ok"] == "1" else fi["boltz"]
+    return fi["objectz"] == want and fi.get("objectzmap", want) != want
 
 
 def drop_rows(dline, q, lo, hi):
@@ -205,30 +221,61 @@ def less_skip(q, k):
     return dict(q, skip=str(sk - k))
 
 
-def shrink(runner, dline, q, key):
+def bad_after(runner, dline, pre, q, key):
+    """does the query, asked after the queries `pre` on new stores over the collection, still violate with this key?"""
+    lines = [dline] + [build_query(p) for p in pre] + [build_query(q)]
+    impl, modl, _ = runner.run(lines)
+    if not impl or len(impl) != len(lines) or not modl or len(modl) != len(lines):
+        return False
+    v = verdict(impl[-1], modl[-1])
+    return v is not None and key_of(q, v, fields(modl[-1])["legacy"]) == key
+
+
+def find_history(runner, dline, q, key, session):
+    """the violation does not show when the query is the first one on new stores.  Returns the earlier queries of the
+    session (on the same collection) that are needed in front of it: one of them if one suffices (the latest such),
+    else all of them (at most the last 40) if that reproduces it, else None"""
+    same = []
+    for line in session:
+        if line.startswith("D"):
+            same = []
+        elif line.startswith("Q"):
+            same.append(parse_query(line))
+    same = same[-40:]
+    for p in reversed(same[-12:]):
+        if bad_after(runner, dline, [p], q, key):
+            return [p]
+    if len(same) > 1 and bad_after(runner, dline, same, q, key):
+        return same
+    return None
+
+
+def shrink(runner, dline, q, key, pre=()):
+    pre = list(pre)
     tried = set()
 
-    def still_bad(d2, q2):
-        case = d2 + "\n" + build_query(q2)
+    def still_bad(d2, q2, pre2=None):
+        pre2 = pre if pre2 is None else pre2
+        case = "\n".join([d2] + [build_query(p) for p in pre2] + [build_query(q2)])
         if case in tried:
             return False
         tried.add(case)
-        impl, modl, _ = runner.run([d2, build_query(q2)])
-        if not impl or len(impl) != 2:
-            return False
-        v = verdict(impl[1], modl[1])
-        return v is not None and key_of(q2, v, fields(modl[1])["legacy"]) == key
+        return bad_after(runner, d2, pre2, q2, key)
+
+    def without(lo, hi):
+        d2, q2 = drop_rows(dline, q, lo, hi)
+        return d2, q2, [drop_rows(dline, p, lo, hi)[1] for p in pre]
     # large collections (the extreme-value ones): remove blocks of rows first, halving the block size
     size = int(dline.split()[1]) // 2
     while size >= 2:
         lo = 0
         while lo < int(dline.split()[1]):
             hi = min(lo + size, int(dline.split()[1]))
-            d2, q2 = drop_rows(dline, q, lo, hi)
-            if still_bad(d2, q2):
-                dline, q = d2, q2
-            elif still_bad(d2, less_skip(q2, hi - lo)):
-                dline, q = d2, less_skip(q2, hi - lo)
+            d2, q2, p2 = without(lo, hi)
+            if still_bad(d2, q2, p2):
+                dline, q, pre = d2, q2, p2
+            elif still_bad(d2, less_skip(q2, hi - lo), p2):
+                dline, q, pre = d2, less_skip(q2, hi - lo), p2
             else:
                 lo += size
         size //= 2
@@ -236,12 +283,18 @@ def shrink(runner, dline, q, key):
     while changed:
         changed = False
         for k in range(int(dline.split()[1])):
-            d2, q2 = drop_row(dline, q, k)
-            if still_bad(d2, q2):
-                dline, q, changed = d2, q2, True
+            d2, q2, p2 = without(k, k + 1)
+            if still_bad(d2, q2, p2):
+                dline, q, pre, changed = d2, q2, p2, True
                 break
-            if still_bad(d2, less_skip(q2, 1)):      # a row in front of the page: the page moves up with it
-                dline, q, changed = d2, less_skip(q2, 1), True
+            if still_bad(d2, less_skip(q2, 1), p2):      # a row in front of the page: the page moves up with it
+                dline, q, pre, changed = d2, less_skip(q2, 1), p2, True
+                break
+        if changed:
+            continue
+        for k in range(len(pre)) if len(pre) > 1 else []:
+            if still_bad(dline, q, pre[:k] + pre[k + 1:]):
+                pre, changed = pre[:k] + pre[k + 1:], True
                 break
         if changed:
             continue
@@ -252,6 +305,9 @@ def shrink(runner, dline, q, key):
                 break
         if changed:
             continue
+        if q.get("style", "0") != "0" and still_bad(dline, dict(q, style="0")):
+            q, changed = dict(q, style="0"), True
+            continue
         # replace the filter by one of its direct sub-filters, or by `true`
         cands = list(q["filter"][1])
         if q["filter"][0] != "T":
@@ -261,7 +317,7 @@ def shrink(runner, dline, q, key):
             if still_bad(dline, q2):
                 q, changed = q2, True
                 break
-    return dline, q
+    return dline, q, pre
 
 
 def ignored_sort_suffix(runner, dline, q, got):
@@ -282,7 +338,7 @@ def main(argv):
         "(typed scalar filter nodes of the ast package) + the C02 models (comparators, setPaging, bounded tree)",
         "objectz comparators / setPaging / memSortingScanner are textual copies of the boltz ones and share their model",
         "extraction (ExtrOcamlBasic only) + extraction/c19_driver.ml + drv_common.ml",
-        "Go harness cmd/storageharness/c19.go + c19ext.go + c19long.go + c02.go (generators, filter printer, float literal conversion) and this comparison",
+        "Go harness cmd/storageharness/c19.go + c19ext.go + c19long.go + c19seq.go + c02.go (generators, the respelling of query texts outside their literals, filter printer, float literal conversion) and this comparison",
     ]
     c.assumptions = [
         "object ids are unique; the bolt store holds the same values with the symbol's own field type",
@@ -332,12 +388,25 @@ def main(argv):
     nqueries = both_panic = unmodelled = 0
     samples = []
     dline, dindex = None, 0
+    session = None      # the case lines since the last `S` (new object stores); None: the stores of the whole run
+    nsessions = nrespelled = history_dependent = 0
+    dependent = {}
+    probes = 0
     for case, i, m in zip(cases, impl, modl):
+        if case.startswith("S"):
+            session, nsessions = [], nsessions + 1
+            continue
         if case.startswith("D"):
             dline, dindex = case, dindex + 1
+            if session is not None:
+                session.append(case)
             continue
         nqueries += 1
         q = parse_query(case)
+        nrespelled += q["style"] != "0"
+        hist = list(session) if session is not None else None
+        if session is not None:
+            session.append(case)
         fi, fm = fields(i), fields(m)
         if nqueries in (1, 300, 900):
             samples.append(dict(dataset=dline, case=case, impl=i, model=m))
@@ -356,34 +425,73 @@ def main(argv):
         side, got, want = v
         key = key_of(q, v, fm["legacy"])
         reported[key] = reported.get(key, 0) + 1
-        if reported[key] > 2:
+        over = reported[key] > 2
+        if over:
+            # enough reports of this class - but inside a session one more look (bounded) whether the disagreement
+            # is one that depends on the earlier queries: that deserves its own report with the queries in front
+            if hist is None or probes >= 40 or sum(dependent.values()) >= 2:
+                continue
+            probes += 1
+        pre = []
+        alone = bad_after(runner, dline, [], q, key)
+        if over and alone:
             continue
-        d2, q2 = shrink(runner, dline, q, key)
-        impl2, modl2, text = runner.run([d2, build_query(q2)])
-        text = (text or ["?"])[0]
-        v2 = verdict(impl2[1], modl2[1]) if impl2 and len(impl2) == 2 else None
-        what = "%s answers %s, expected %s" % ({"objectz": "object store", "bolt": "bolt store", "differs": "object store"}[side], got, want)
+        if not alone:
+            # not reproduced by this query alone on new stores: the answer depends on earlier queries on the same
+            # ObjectStore (objectz_session_independent); look for them in the session
+            history_dependent += 1
+            pre = find_history(runner, dline, q, key, hist) if hist else None
+        rkey = key
+        if pre:
+            # the class of the wrong answer (count / page / order) says little here: report the dependence itself
+            rkey = "C19:%s-depends-on-earlier-query" % ("bolt" if side == "bolt" else "objectz")
+            dependent[rkey] = dependent.get(rkey, 0) + 1
+            if dependent[rkey] > 2:
+                continue
+        if over and not pre:
+            continue
+        if pre is None:
+            d2, q2, pre = dline, q, []
+        else:
+            d2, q2, pre = shrink(runner, dline, q, key, pre)
+        lines2 = [d2] + [build_query(p) for p in pre] + [build_query(q2)]
+        impl2, modl2, text = runner.run(lines2)
+        texts = text if isinstance(text, list) and len(text) == len(lines2) - 1 else ["?"] * (len(lines2) - 1)
+        text = texts[-1]
+        v2 = verdict(impl2[-1], modl2[-1]) if impl2 and len(impl2) == len(lines2) else None
+        who = {"objectz": "object store", "bolt": "bolt store", "differs": "object store"}[side]
+        if side != "bolt" and via_map(i, m):
+            who = "object store fed through objectz.IterateMap"
+        what = "%s answers %s, expected %s" % (who, got, want)
         if v2:
-            what += "; minimal: `%s` on %s object(s): %s, expected %s (object store %s, bolt store %s)" % (
-                text, d2.split()[1], v2[1], v2[2], fields(impl2[1])["objectz"], fields(impl2[1])["boltz"])
+            fi2 = fields(impl2[-1])
+            what += "; minimal: %s`%s` on %s object(s): %s, expected %s (object store %s, object store fed through objectz.IterateMap %s, bolt store %s)" % (
+                "after %s on the same ObjectStore, " % ", ".join("`%s`" % t for t in texts[:-1]) if pre else "",
+                text, d2.split()[1], v2[1], v2[2], fi2["objectz"], fi2.get("objectzmap", "?"), fi2["boltz"])
+            if pre:
+                what += ("; asked alone the query is answered correctly: the answer depends on what was asked before "
+                         "(theorem objectz_session_independent: it must not)")
             what += show_keys(d2, q2)
             if side in ("objectz", "bolt") and len(q2["sort"]) > 1 and v2[1] not in ("ERR", "PANIC"):
-                k = ignored_sort_suffix(runner, d2, q2, v2[1])
+                k = None if pre else ignored_sort_suffix(runner, d2, q2, v2[1])
                 if k is not None:
                     what += "; this is the answer for the first %d of the %d sort fields only: the %s ignores `%s`" % (
                         k, len(q2["sort"]), {"objectz": "object store", "bolt": "bolt store"}[side],
                         ", ".join("%s %s" % ("id" if c0 == "id" else (["fs", "fi", "fj", "ff", "fb", "ft", "keep", "grp"][int(c0)]), "asc" if a == "a" else "desc")
                                   for c0, _, a in q2["sort"][k:]))
-        c.violation(key, what, dict(case=d2 + "\n" + build_query(q2), query_text=text,
-                                    impl=impl2[1] if impl2 else i, model=modl2[1] if modl2 else m,
+        c.violation(rkey, what, dict(case="\n".join(lines2), query_text=text, earlier_queries=texts[:-1],
+                                    impl=impl2[-1] if impl2 else i, model=modl2[-1] if modl2 else m,
                                     original_case=dline + "\n" + case, side=side))
 
     c.cov["evaluations"] = nqueries
     c.cov["distinct_nontrivial"] = len(distinct)
     c.cov["disagreements_checked"] = sum(reported.values()) + len(internal)
+    c.cov["sessions"] = nsessions
+    c.cov["respelled_queries"] = nrespelled
+    c.cov["history_dependent_disagreements"] = history_dependent
     c.cov["both_stores_panic"] = both_panic
     c.cov["unmodelled_filters"] = unmodelled
-    c.cov["violation_classes"] = reported
+    c.cov["violation_classes"] = dict(reported, **dependent)
     c.cov["rule"] = ("per ordinary collection (0..12 objects, fields of the five scalar types + id, 0-60% nulls, value pools with ties): "
                      "(1) the full paging grid skip x limit (99 points) for `true` in default order and for a null test under a sort; "
                      "(1a) the skip/limit pairs at the numeric extremes of int64 (skip+limit at and beyond MaxInt64 with a finite limit, "
@@ -405,8 +513,17 @@ def main(argv):
                      "(x1) every column ascending and descending, alone and as second key behind a column with ties, unpaged and read back "
                      "page by page (skip k limit 1 for every k, pages of 3, first/last, skip without limit); (x2) every atom kind x operator x column "
                      "with literals at the extremes, unpaged and sorted by that column with a page; (x3) random composite filters x sorts x pages. "
-                     "The same text goes to ObjectStore.QueryEntities "
-                     "(objects delivered in a shuffled order) and to QueryIds of a bolt store loaded with the same values. "
+                     "(S) SESSIONS on new ObjectStore instances (c19seq.go; case line S = new stores, QV = the text respelled outside its literals: "
+                     "keyword case, doubled separators, tabs / line breaks, margins, no blanks around comparison operators, blanks inside brackets): "
+                     "collections of near-identical strings (one / two / three blanks, tab, line break, leading / trailing blank, none, lower / upper case, "
+                     "quote and backslash with and without a backslash in front, a tab against the characters \\t; fixed families + random ones); "
+                     "(S1) the collection changes under one pair of stores: never populated, 1 object, 23, emptied, 2, emptied, 1, emptied - the same texts each time; "
+                     "(S2) every ordered pair of near-identical literals as a two-query session (operators = != contains in < not-contains icontains >=); "
+                     "(S3) one query in every spelling, then its neighbour, then the first again, in one session; (S4) random sessions of 2..7 queries. "
+                     "The same text goes to ObjectStore.QueryEntities of two object stores - one fed by the harness's iterator "
+                     "(objects delivered in a shuffled order), one fed by objectz.IterateMap over a map that is emptied and re-populated when the "
+                     "collection changes - and to QueryIds of a bolt store loaded with the same values; each answer is compared with the "
+                     "specification for exactly that text (independent of the earlier queries of the session: objectz_session_independent). "
                      "Non-trivial: modelled filter, at least one matching object, and a filter/sort/skip/limit clause; distinct by (collection, query)")
     c.cov["samples"] = samples
     try:
